@@ -200,6 +200,29 @@ func c14(r *rand.Rand, tier string, classFile string, tr *trace.Buf) {
 			tr.Emit(e)
 		}
 	}
+	// the Winternitz parameters one after the other in ONE goroutine, in every order (work areas kept between calls
+	// are sized by whoever came first); signatures of the right size for height 4, so every call reaches the WOTS stage
+	for _, perm := range [][]int{{256, 16, 4}, {256, 4, 16}, {16, 256, 4}, {16, 4, 256}, {4, 16, 256}, {4, 256, 16}} {
+		for _, w := range append(perm, perm...) {
+			base := map[int]int{4: 4292, 16: 2180, 256: 1124}[w]
+			sig := make([]byte, base+32*4)
+			r.Read(sig)
+			sig[0], sig[1], sig[2], sig[3] = 0, 0, 0, byte(r.Intn(16))
+			var pk [67]uint8
+			r.Read(pk[:])
+			hf := r.Intn(3)
+			pk[0] = uint8(hf)
+			msg := make([]byte, r.Intn(40))
+			r.Read(msg)
+			e := eEvent{Ev: "xverify", W: w, SigLen: len(sig), B0: hf, B1s: []int{2}, Content: "w-sequence", Intact: true}
+			pk[1] = 2
+			s0, p0, m0 := dup(sig), pk, dup(msg)
+			e.Outs = append(e.Outs, guarded(func() { xmss.VerifyWithCustomWOTSParamW(msg, sig, pk, uint32(w)) }))
+			e.Intact = string(s0) == string(sig) && p0 == pk && string(m0) == string(msg)
+			e.close()
+			tr.Emit(e)
+		}
+	}
 	// genuine signature with one region replaced by random bytes, all descriptor height nibbles
 	for _, rg := range [][2]int{{0, 4}, {4, 36}, {36, 2180}, {2180, 2308}, {0, 2308}} {
 		sig := dup(gsig)
